@@ -411,6 +411,27 @@ def sampler_level(run, tier, rng):
             run.case(key=("sampler", t, it))
 
 
+def nocopy_probe(run):
+    """set_current(copy=False) hands the caller's buffer to the manager (documented); committed history must
+    still be the manager's own: reusing the buffer afterwards must not rewrite earlier batches."""
+    from tempest.state_manager import StateManager
+    for method in ("set", "update"):
+        sm = StateManager(1)
+        buf = np.array([1.0, 2.0, 3.0])
+        for it in range(3):
+            buf[...] = [10 * it + 1, 10 * it + 2, 10 * it + 3]
+            if method == "set":
+                sm.set_current("logl", buf, copy=False)
+            else:
+                sm.update_current({"logl": buf}, copy=False)
+            sm.commit_current_to_history()
+        hist = [[float(v) for v in a] for a in sm._history["logl"]]
+        run.case(key=("nocopy", method))
+        if hist != [[1.0, 2.0, 3.0], [11.0, 12.0, 13.0], [21.0, 22.0, 23.0]]:
+            run.fail("history-not-append-only", f"reusing a buffer passed with copy=False rewrote committed batches: {hist}",
+                     ops=[f"{method}_current(logl, buf, copy=False)", "commit", "buf[...] = next", "..."])
+
+
 def main(tier, seed):
     run = Run(PID, tier, seed)
     run.rule = ("random interleavings (6..40 ops) of set/get/get-all/get-history/flat-history/commit/to_dict/import/"
@@ -433,6 +454,7 @@ def main(tier, seed):
     try:
         sweep(run, tier, rng)
         sampler_level(run, tier, rng)
+        nocopy_probe(run)
     except Exception:
         import traceback
         run.broken.append(("harness-exception", traceback.format_exc()[-1500:]))
